@@ -376,7 +376,8 @@ def mgr_replay(results, scenarios, remote_ids):
     for i, (r, sc, rid) in enumerate(zip(results, scenarios, remote_ids)):
         dom = dominant_of(sc["local_id"], rid, sc["local_as"], sc["remote_as"])
         for seg in mgr_ints(r, sc["passive"], dom):
-            lines.append("70 " + " ".join(str(x) for x in seg))
+            # an event storm (a state machine spinning) is judged by the scenario's monitors; the replay takes a prefix
+            lines.append("70 " + " ".join(str(x) for x in seg[:6000]))
             owner.append(i)
     outs = run_parallel(os.path.join(BIN, "model_driver"), lines) if lines else []
     bad = []
@@ -384,6 +385,18 @@ def mgr_replay(results, scenarios, remote_ids):
         if not o.startswith("1 "):
             bad.append((owner[k], o, lines[k]))
     return bad, len(lines)
+
+
+def _norm(r):
+    """Go encodes empty slices as null: make every list a list"""
+    for k in ("conns", "cbs", "events", "api", "writes", "dials", "steplog"):
+        if k in r and r[k] is None:
+            r[k] = []
+    for c in r.get("conns") or []:
+        for k in ("msgs", "sent"):
+            if c.get(k) is None:
+                c[k] = []
+    return r
 
 
 def run_sys(scenarios, par=24, timeout=600):
@@ -403,7 +416,7 @@ def run_sys(scenarios, par=24, timeout=600):
                 ex.timeout, (ex.stderr or "")[-1500:] if isinstance(ex.stderr, str) else "")
         if p.returncode != 0:
             return None, p.stderr
-        out = [json.loads(l) for l in p.stdout.splitlines() if l.strip()]
+        out = [_norm(json.loads(l)) for l in p.stdout.splitlines() if l.strip()]
         return out, p.stderr
 
     out, err = batch(scenarios)
@@ -484,6 +497,10 @@ def cb_wf(res):
             in_handler = False
     if est_open:
         bad.append("OnEstablished without a matching OnClose by the time Close returned")
+    nev = len(res.get("events") or [])
+    dur = max([e["at"] for e in res.get("events") or []] + [1])
+    if nev > 4000 and nev / dur > 2.0:
+        bad.append("state machine spinning: %d manager/FSM events in %d ms" % (nev, dur))
     # GetCapabilities once per connection on which an OPEN is sent: never more calls than connections the
     # peer obtained (successful dials + inbound connections handed to an FSM)
     evs = res.get("events") or []
@@ -502,6 +519,40 @@ def wire_wf(res):
     for c in res["conns"] or []:
         if c.get("garbage"):
             bad.append("conn %s: bytes that are not whole well-formed messages: %s" % (c["name"], c["garbage"][:80]))
+    return bad
+
+
+def expected_open_body(sc):
+    """C14: the OPEN the configuration and the plugin's capabilities dictate (RFC 4271 4.2 / RFC 5492 / RFC 6793)"""
+    import struct
+    las = sc["local_as"]
+    caps = bytes([65, 4]) + struct.pack(">I", las)
+    for code, hexv in sc.get("caps") or []:
+        if int(code) == 65:
+            continue
+        v = bytes.fromhex(hexv)
+        caps += bytes([int(code), len(v)]) + v
+    params = bytes([2, len(caps)]) + caps
+    return bytes([4]) + struct.pack(">HHI", las if las < 65536 else 23456, sc["hold"], sc["local_id"]) + bytes([len(params)]) + params
+
+
+def open_wf(res, sc):
+    """every connection on which corebgp speaks starts with exactly that OPEN, on every session of every FSM"""
+    bad = []
+    try:
+        want = expected_open_body(sc)
+    except (ValueError, KeyError, OverflowError):
+        return bad          # capabilities that do not fit: the dedicated C14 cases decide those
+    for c in res.get("conns") or []:
+        msgs = c.get("msgs") or []
+        if not msgs:
+            continue
+        if msgs[0]["t"] != 1:
+            bad.append("conn %s: the first message corebgp sent is of type %d, not OPEN" % (c["name"], msgs[0]["t"]))
+        elif bytes.fromhex(msgs[0]["b"]) != want:
+            bad.append("conn %s: OPEN sent %s differs from the configured one %s" % (c["name"], msgs[0]["b"], want.hex()))
+        if any(m["t"] == 1 for m in msgs[1:]):
+            bad.append("conn %s: a second OPEN was sent on the same connection" % c["name"])
     return bad
 
 
